@@ -3,6 +3,7 @@
 from __future__ import annotations
 
 import importlib
+from fractions import Fraction as F
 
 import numpy as np
 
@@ -194,6 +195,24 @@ def scenario_points(env, cfg):
                 env.prove(f"normalize(reflect={reflect}):axis{a}-is-a-mirror-image", O.lor(O.is_int(d1), O.is_int(d2)))
         if reflect or all(grid.periodic):
             env.prove(f"normalize(reflect={reflect}):result-contained", bool(grid.contains_point(np.array(q, copy=True), coords="grid")) if not env.sym else _contains(env, grid, q))
+        # integer-typed input (python ints, integer ndarray): same result as for the same point given as floats,
+        # and the caller's array is not modified
+        ivals = [3, -2, 5][:na]
+        want = np.atleast_1d(grid.normalize_point(np.array([F(v) if env.sym else float(v) for v in ivals], dtype=object if env.sym else float), reflect=reflect))
+        base_np = importlib.import_module("pde.grids.base").np
+        for form in ("int64-ndarray", "list-of-int"):
+            arg = np.array(ivals, dtype=np.int64) if form == "int64-ndarray" else list(ivals)
+            if na == 1 and form == "list-of-int":
+                arg = ivals[0]
+            if env.sym:
+                base_np.lift_double = True
+            try:
+                got = np.atleast_1d(grid.normalize_point(arg, reflect=reflect))
+            finally:
+                if env.sym:
+                    base_np.lift_double = False
+            env.close(f"normalize(reflect={reflect}):{form}=same-as-float-input", list(got), list(want), scale=SC)
+            env.prove(f"normalize(reflect={reflect}):{form}-argument-not-modified", [int(v) for v in np.atleast_1d(arg)] == ivals[: len(np.atleast_1d(arg))])
     env.reach()
 
 
